@@ -91,6 +91,24 @@ func c07Scenarios(thorough bool) []c07Scenario {
 				{"R3", "COMMIT", "reader gone"},
 				{"W", "COMMIT", "committed"},
 			}},
+			c07Scenario{"two-transactions/" + m, pr, []c07Step{
+				{"W", "BEGIN", ""},
+				{"W", "UPDATE t SET v = 'second' WHERE id = 1", "RESERVED"},
+				{"W", "COMMIT", "committed"},
+				{"W", "BEGIN", ""},
+				{"W", "UPDATE t SET v = 'third' WHERE id = 1", "RESERVED again, right after a commit"},
+				{"W", "INSERT INTO w VALUES ('q', 9)", "RESERVED"},
+				{"W", "COMMIT", "committed"},
+			}},
+			c07Scenario{"two-transactions-sync-off/" + m, pr + "; PRAGMA synchronous=OFF", []c07Step{
+				{"W", "BEGIN", ""},
+				{"W", "UPDATE t SET v = 'second' WHERE id = 1", "RESERVED, the journal header is complete at once (no sync)"},
+				{"W", "COMMIT", "committed"},
+				{"W", "BEGIN", ""},
+				{"W", "UPDATE t SET v = 'third' WHERE id = 1", "RESERVED again with a hot-looking journal"},
+				{"W", "INSERT INTO w VALUES ('q', 9)", "RESERVED"},
+				{"W", "COMMIT", "committed"},
+			}},
 			c07Scenario{"exclusive-mode/" + m, pr + "; PRAGMA locking_mode=EXCLUSIVE", []c07Step{
 				{"W", "BEGIN EXCLUSIVE", "EXCLUSIVE"},
 				{"W", "INSERT INTO t VALUES (504, 'uncommitted', 'p')", "EXCLUSIVE"},
@@ -103,7 +121,7 @@ func c07Scenarios(thorough bool) []c07Scenario {
 }
 
 func runC07(r *ev.Run) {
-	r.Rule = "writer scripts of a real SQLite connection in another process (small commit, rollback, spilling bulk insert with cache_size=1, commit blocked by a third reader = PENDING, locking_mode=EXCLUSIVE), journal modes DELETE (+TRUNCATE, PERSIST thorough), parked after EVERY statement; in every parked state every read operation (all low level and high level calls, the driver) runs on a fresh handle and on a long-lived handle; the writer's lock level is read from /proc/locks; oracle: PENDING or EXCLUSIVE => error and zero rows; RESERVED/SHARED/UNLOCKED => success and exactly the last committed content (dumped by a separate SQLite reader). non-trivial = states in which the writer holds RESERVED or more"
+	r.Rule = "writer scripts of a real SQLite connection in another process (small commit, two transactions back to back with synchronous FULL and OFF, rollback, spilling bulk insert with cache_size=1, commit blocked by a third reader = PENDING, locking_mode=EXCLUSIVE), journal modes DELETE (+TRUNCATE, PERSIST thorough), parked after EVERY statement; in every parked state every read operation (all low level and high level calls, the driver) runs on a fresh handle and on a long-lived handle; in addition one long-lived handle per SUBSET of the steps reads (Select on both tables, IndexedSelect) only at the steps of its subset, so every read schedule of a long-lived handle is covered; the writer's lock level is read from /proc/locks; oracle: PENDING or EXCLUSIVE => error and zero rows; RESERVED/SHARED/UNLOCKED => success and exactly the last committed content (dumped by a separate SQLite reader). non-trivial = states in which the writer holds RESERVED or more"
 	dir := ev.TmpDir("c07")
 	defer os.RemoveAll(dir)
 	scen := c07Scenarios(r.Thorough())
@@ -145,6 +163,24 @@ func runC07(r *ev.Run) {
 		if committed == nil {
 			return
 		}
+		// one long-lived handle per subset of the steps (every read schedule); each reads once now (warm cache)
+		subset := map[int]*Env{}
+		if len(sc.steps) <= 8 {
+			for mask := 1; mask < 1<<uint(len(sc.steps)); mask++ {
+				le, err := OpenEnv(path)
+				if err != nil {
+					r.Harness("open: %v", err)
+					return
+				}
+				defer le.H.Close()
+				for _, op := range ops {
+					if op.Name == "Select(t)" || op.Name == "Select(w)" || op.Name == "IndexedSelect(t,t_v)" {
+						op.Run(le, 0)
+					}
+				}
+				subset[mask] = le
+			}
+		}
 		for k, st := range sc.steps {
 			who := W
 			if st.who == "R3" {
@@ -175,6 +211,35 @@ func runC07(r *ev.Run) {
 				}
 			}
 			mustFail := level == "PENDING" || level == "EXCLUSIVE"
+			// handles that read only at SOME steps: handle s (a bit mask over the steps) reads now iff bit k is set
+			for mask, le := range subset {
+				if mask&(1<<uint(k)) == 0 {
+					continue
+				}
+				for oi, op := range ops {
+					if op.Name != "Select(t)" && op.Name != "Select(w)" && op.Name != "IndexedSelect(t,t_v)" {
+						continue
+					}
+					var res OpResult
+					p := Safely(func() { res = op.Run(le, 0) })
+					r.Eval(1)
+					r.Trans(1)
+					a2 := map[string]interface{}{"op": op.Name, "handle": "long-lived, reads only at the steps of the mask", "read_mask": mask}
+					for kk, v := range art {
+						a2[kk] = v
+					}
+					switch {
+					case p != nil:
+						r.Violation("C07:panic", fmt.Sprintf("%s panics while the writer is %s: %v", op.Name, level, p), a2)
+					case mustFail && (res.Err == nil || len(res.Rows) > 0):
+						r.Violation("C07:read-under-"+strings.ToLower(level)+":"+opKind(op.Name), fmt.Sprintf("%s (handle reading at steps %b) while the writer holds %s: err=%v, %d rows", op.Name, mask, level, res.Err, len(res.Rows)), a2)
+					case !mustFail && res.Err != nil:
+						r.Violation("C07:refused-under-"+strings.ToLower(level)+":"+opKind(op.Name), fmt.Sprintf("%s (handle reading at steps %b) fails (%v) although the writer holds only %s", op.Name, mask, res.Err, level), a2)
+					case !mustFail && !RowsEq(res.Rows, committed[oi].Rows, false):
+						r.Violation("C07:stale-or-uncommitted:"+opKind(op.Name), fmt.Sprintf("%s on a long-lived handle that reads only at steps %b (bit k = step k), now at step %d with the writer %s: %d rows, the last committed state has %d: %s", op.Name, mask, k, level, len(res.Rows), len(committed[oi].Rows), firstDiffSafe(res.Rows, committed[oi].Rows)), a2)
+					}
+				}
+			}
 			for hi, hname := range []string{"fresh", "long-lived"} {
 				for oi, op := range ops {
 					var e *Env
